@@ -89,7 +89,7 @@ Proof. intros s E env brk H. exact (walk_stmt_no_leak s E env brk H). Qed.
 Print Assumptions C01_partial_translator_scope.
 (* both are about something: a clause-level declaration shadowing an outer variable, read after the switch *)
 Example C01_scope_ex :
-  let w := {| objs := [{| o_b := true; o_i := 0; o_u := 3; o_s := []; o_next := None; o_m1 := 0; o_m2 := 0 |}]; trace := [] |} in
+  let w := {| objs := [{| o_b := true; o_i := 0; o_u := 3; o_s := []; o_next := None; o_m1 := 0; o_m2 := 0; o_d := 0%N |}]; trace := [] |} in
   run_binding [] 0 w "i"
     (CStmt (SBlock [SDecl DLet [("x"%string, None, Some (EInt 1))];
                     SSwitch (EMember EThis "i") [(EInt 0, [SDecl DLet [("x"%string, None, Some (EInt 2))]; SBreak false])] None;
@@ -98,7 +98,7 @@ Proof. vm_compute. reflexivity. Qed.
 
 (* non-vacuity: a switch whose default stands in the middle, with fall-through and a break under a nested if *)
 Example C01_ex :
-  let w := {| objs := [{| o_b := true; o_i := 7; o_u := 3; o_s := []; o_next := None; o_m1 := 0; o_m2 := 0 |}]; trace := [] |} in
+  let w := {| objs := [{| o_b := true; o_i := 7; o_u := 3; o_s := []; o_next := None; o_m1 := 0; o_m2 := 0; o_d := 0%N |}]; trace := [] |} in
   let body x := CStmt (SBlock [SDecl DLet [("r"%string, None, Some (EInt 0))];
      SSwitch (EInt x) [(EInt 1, [SExpr (EAssign (EIdent "r") (EInt 1))]); (EInt 2, [SExpr (EAssign (EIdent "r") (EInt 2)); SBreak false])]
              (Some (1%nat, [SIf (EMember EThis "b") (SBlock [SExpr (EAssign (EIdent "r") (EBinary BRem (EUnary UMinus (EMember EThis "i")) (EInt 4))); SBreak false]) None]));
